@@ -408,6 +408,10 @@ class Check:
         with open(os.path.join(evdir, self.pid + ".json"), "w") as f:
             json.dump(ev, f, indent=1, sort_keys=True)
             f.write("\n")
+        if os.path.isdir(rdir):
+            for fn in os.listdir(rdir):
+                if fn.startswith(self.pid + "-"):
+                    os.remove(os.path.join(rdir, fn))
         for key, what in self.known:
             print("KNOWN-FINDING: property=%s %s [%s]" % (self.pid, what, key))
         if self.violations:
